@@ -8,7 +8,9 @@ PY = '/venv/bin/python'
 
 GRAPH_NOTE = ('Trusted: CPython re / re._parser as reader and executor of regex syntax; the canonical-key merge '
               'argument of DESIGN.md 1.2.  Bounded by expression depth and the code-derived atom alphabet '
-              'stated in the evidence.')
+              'stated in the evidence.  Every check also runs the history differential (constructor calls in four '
+              'orders in fresh interpreters) and, for graph checks, the purity re-check; new violations are confirmed '
+              'in fresh interpreters under real PYTHONHASHSEEDs before they are reported (DESIGN.md 9).')
 
 CHECKS = {
     'C01': ('exhaustive enumeration of code points, literal alphabet and every str argument position; parse-tree normal form',
@@ -122,7 +124,9 @@ def main():
         'checks': checks,
         'not_applicable': [{'property_id': p, 'reason': 'check not built yet (work in progress; see DESIGN.md section 3)'}
                            for p in ALL if p not in CHECKS],
-        'notes': 'See DESIGN.md.  Known findings: known_findings.json + known/*.keys.',
+        'notes': 'See DESIGN.md (sections 9-11 describe what was built, the triage of the unchanged tree and the detection results). '
+                 'Known findings: known_findings.json + known/*.keys (one open finding, F01; 27 repaired defects listed as fixed). '
+                 'Seeded changes and results: seeded/ (tools/seeded_matrix.py).  No source hook exists in /repo.',
     }
     with open(os.path.join(HERE, 'MANIFEST.json'), 'w') as fh:
         json.dump(m, fh, indent=1)
